@@ -477,6 +477,11 @@ def run(ctx, focus):
     cli_runs = 0
     if focus == 'C01':
         cases += trained_order_cases(ctx, focus, violations, dist)
+        # the order of the whole run when it is spread over sessions, one of them with a guess limit it never reaches
+        from props import C15 as _c15l
+        v_lim, r_lim = _c15l.limited_resume_history('C01')
+        violations += v_lim
+        cases += r_lim
     if focus == 'C02':
         cases += session_full_runs(ctx, violations, dist)
         # ... and the language is that of the session's own flags when the run is picked up from its save file
@@ -515,6 +520,10 @@ def run(ctx, focus):
 
 
 def replay(ctx, payload, focus):
+    if ((payload.get('violation') or {}).get('witness') or {}).get('limited_resume_history'):
+        from props import C15 as _c15l
+        common.use_impl()
+        return _c15l.limited_resume_history(focus)[0]
     w = payload.get('violation', {}).get('witness') or payload.get('witness')
     if w and w.get('trained'):
         return trained_one(ctx, focus, 'replay', w['passwords'], w['ngram'], w['coverage'], {}) or []
